@@ -35,7 +35,7 @@ def one_program(seed, i, tier, res):
     rng = random.Random("%s:C01:%d" % (seed, i))
     big = rng.random() < (0.3 if tier == "thorough" else 0.1)
     g = gen.ProgGen(rng, max_depth=rng.choice([5, 6, 8]) if big else rng.choice([3, 4, 5]), max_nodes=150 if big else 40,
-                    value_depth=rng.choice([1, 2, 3]), defer_p=0.3, extra_styles=("pre_created", "ctx_finish_inside"))
+                    value_depth=rng.choice([1, 2, 3]), defer_p=0.3, extra_styles=("pre_created", "ctx_finish_inside"), reseed_p=0.03, reserved_field_p=0.1)
     prog = g.program()
     mode = rng.choice(["ab", "ab0", "a"])
     fd, path = tempfile.mkstemp(prefix="vf-c01-")
